@@ -732,7 +732,12 @@ func (c *compiler) arrayOperator(l interface{}, r interface{}, op string) (inter
 			err = fmt.Errorf("cannot append '%v' (%T) as %s value in assignment", r, r, elemType)
 		}
 		if err == nil {
-			return reflect.Append(reflect.ValueOf(l), reflect.ValueOf(r)).Interface(), nil
+			// the sum is a slice of its own: appending in place, into spare
+			// capacity of l, would change every other value made from l
+			lv := reflect.ValueOf(l)
+			sum := reflect.MakeSlice(lv.Type(), lv.Len(), lv.Len()+1)
+			reflect.Copy(sum, lv)
+			return reflect.Append(sum, reflect.ValueOf(r)).Interface(), nil
 		}
 	default:
 		err = fmt.Errorf("unkown operator (%s) on %T and %T ", op, l, r)
